@@ -327,6 +327,10 @@ def _map_job(a):
 
 
 def run(ctx):
+    from .. import pipeline
+
+    # wiring: the run's stored columns are this stage applied to the run's stored columns (see nssmc/pipeline.py)
+    pipeline.run_in(ctx, ['optical'], ('A', 'B'))
     tier = ctx.tier
     evs = events(tier)
     res = par.pmap(judge_event, evs)
@@ -370,6 +374,10 @@ def run(ctx):
 
 
 def replay(case):
+    if isinstance(case, dict) and case.get("kind") == "pipeline":
+        from .. import pipeline
+
+        return pipeline.replay(case)
     k = case["kind"]
     if k == "kernel":
         v, _, _ = judge_event(tuple(case["ev"]))
